@@ -18,17 +18,19 @@ import (
 var c07Exprs = []string{
 	"`[3,1,2]`", "sort(`[3,1,2]`)", "reverse(`[3,1,2]`)", "`[[3,1],[2]]`[]", "`[3,1,2]`[*]", "`[3,1,2]`[1:]", "merge(`{\"a\":1}`, o)", "keys(`{\"b\":1,\"a\":2}`)",
 	"let $x = a, $y = b in [$x, $y]", "a[*].b[*].c", "a[?b && c].d", "{p: a, q: b, r: c}", "sort_by(arr, &k)", "group_by(arr, &g)", "map(&[@, k], arr)", "arr[1:]", "arr[::-1]", "to_string(@)",
+	"sum(longs)", "longs[0] + longs[1]", "sort(longs)", "max(longs) == `323456789012345678`", "longs[*] | [?@ > `200000000000000000`]", "to_number('123456789012345678901') + longs[2]",
 	"a[*].[$.b, d]", "map(&$.n, arr)", "arr[?k == $.n || g == $.b]", "map(&[$.s, @.k], arr)", "sort(`[3,1,2,7,5,4,6,0,9,8,11,10,13,12]`)",
 	"n + n * n", "sum(nums) / length(nums)", "arr[*].k | sort(@)", "o.* | sort(@)", "max_by(arr, &k).g", "not_null(missing, a, b)", "join(',', strs)", "split(s, ',')", "a == a && o == o", "[a, b][].b",
 }
 
 func c07DocA() any {
 	return core.JSONDoc(`{"a":[{"b":[{"c":1},{"c":2}],"c":true,"d":"x"},{"b":[{"c":3}],"c":false,"d":"y"}],"b":"bee","c":3,"o":{"z":1,"y":2},
-		"arr":[{"k":3,"g":"p"},{"k":1,"g":"q"},{"k":2,"g":"p"}],"n":2,"nums":[1,2,3.5],"strs":["x","y"],"s":"a,b,c"}`)
+		"arr":[{"k":3,"g":"p"},{"k":1,"g":"q"},{"k":2,"g":"p"}],"n":2,"nums":[1,2,3.5],"strs":["x","y"],"s":"a,b,c",
+		"longs":[123456789012345678,223456789012345678,323456789012345678,1.23456789012345678e30]}`)
 }
 
 func c07DocB() any {
-	return core.JSONDoc(`{"a":[{"b":[{"c":9}],"c":true,"d":"z"}],"b":null,"c":[1],"o":{"x":7},"arr":[{"k":"b","g":"r"},{"k":"a","g":"r"}],"n":10,"nums":[4],"strs":[],"s":"solo"}`)
+	return core.JSONDoc(`{"a":[{"b":[{"c":9}],"c":true,"d":"z"}],"b":null,"c":[1],"o":{"x":7},"arr":[{"k":"b","g":"r"},{"k":"a","g":"r"}],"n":10,"nums":[4],"strs":[],"s":"solo","longs":[987654321098765432,887654321098765432,787654321098765432,9.87654321098765432e30]}`)
 }
 
 // a scenario: which calls run concurrently
@@ -200,6 +202,12 @@ func c07Run(r *core.Run) {
 	if len(verifrt.UsesSync)+len(verifrt.UsesGo)+len(verifrt.UsesChan) > 0 {
 		r.Note(fmt.Sprintf("the library now uses synchronisation or goroutines (sync: %v, go: %v, chan: %v): yield points at function entries may no longer be sufficient", verifrt.UsesSync, verifrt.UsesGo, verifrt.UsesChan))
 	}
+	// first use: nothing of the library has run in this process yet. A call that writes package-level state (a lazily
+	// built table, a memo, a counter) without any synchronisation primitive in the library is a write that two first
+	// calls would race on, whatever the later schedules look like.
+	if v := c07FirstUse(); v != nil && r.Shard == 0 {
+		r.Violate(v)
+	}
 	scs := c07Scenarios(r.Thorough())
 	r.Bound("scenarios", len(scs))
 	r.Bound("expressions", len(c07Exprs))
@@ -236,6 +244,11 @@ func c07Run(r *core.Run) {
 			b := bound
 			if r.Thorough() {
 				b = 3
+			} else if len(x1.Steps) > 150 {
+				// long calls: the number of schedules with two preemptions grows with the square of the yield
+				// points; the quick tier keeps them to one preemption (the thorough tier explores every state)
+				b = 1
+				r.Add("scenarios_explored_with_preemption_bound_1", 1)
 			}
 			c07Bounded(r, sc, want, b)
 		}
@@ -243,6 +256,53 @@ func c07Run(r *core.Run) {
 			return map[string]any{"expr": sc.Expr, "calls": sc.Calls, "default_schedule": x1.Trace(), "yield_points": len(x1.Steps)}
 		})
 	}
+}
+
+func c07Globals() string {
+	var b strings.Builder
+	for _, g := range verifrt.Globals {
+		b.WriteString("|" + g.Name + "=")
+		b.WriteString(core.DeepHash(g.Ptr))
+	}
+	return b.String()
+}
+
+var c07FirstUseDone bool
+
+// c07FirstUse must be the first thing that touches the library in a worker process.
+func c07FirstUse() *core.Violation {
+	if c07FirstUseDone {
+		return nil
+	}
+	c07FirstUseDone = true
+	if len(verifrt.UsesSync) > 0 {
+		return nil // lazily initialised state may be legitimately guarded; the schedule search and the race pass decide
+	}
+	before := c07Globals()
+	names := map[string]string{}
+	for _, g := range verifrt.Globals {
+		names[g.Name] = core.DeepHash(g.Ptr)
+	}
+	doc := c07DocA()
+	for _, e := range []string{"a", "a.b[0] || c && !d == e != f < g <= h > i >= j + k - l * m / n // o % p", "sort_by(arr, &k)[*].g | [0]", "let $x = n in [$x, -$x, +$x]", "longs[0] + longs[1] * `123456789012345678901234`",
+		"{p: a[*].b[?c > `1`].c[], q: o.*, r: s[::-1], t: `[1, {\"a\": 2.50}]`, u: 'raw', v: \"b\"}", "to_number('1234567890123.5') + sum(longs)", "nosuch(", "abs()", "a[::0]"} {
+		core.Search(e, doc)
+		if ex, _ := core.Compile(e); ex != nil {
+			core.ExprSearch(ex, doc)
+		}
+	}
+	if c07Globals() == before {
+		return nil
+	}
+	var changed []string
+	for _, g := range verifrt.Globals {
+		if core.DeepHash(g.Ptr) != names[g.Name] {
+			changed = append(changed, g.Name)
+		}
+	}
+	return &core.Violation{Sig: "C07/package-state-written-on-first-use/" + strings.Join(changed, "+"), Desc: "the first calls of a fresh process wrote package-level variables " + strings.Join(changed, ", "),
+		Point:    map[string]any{"expr": "first-use", "calls": "", "schedule": "", "doc": "first calls of a fresh process", "firstuse": true},
+		Expected: "no package-level state written by Search / Compile (the library uses no synchronisation primitive)", Actual: "changed: " + strings.Join(changed, ", ")}
 }
 
 // c07Bounded: iterative preemption bounding (0, 1, .., bound).
@@ -411,6 +471,12 @@ func c07RunRace(r *core.Run) {
 }
 
 func c07Judge(r *core.Run, phase string, pt map[string]any) *core.Violation {
+	if pbool(pt, "firstuse") {
+		if !verifrt.Instrumented {
+			return nil
+		}
+		return c07FirstUse()
+	}
 	sc := c07Scenario{Expr: pstr(pt, "expr"), Calls: strings.Fields(pstr(pt, "calls"))}
 	if !verifrt.Instrumented {
 		return nil
